@@ -192,6 +192,11 @@ func genC04Comp(t *rapid.T) C04CompCase {
 		}
 		c.Values = append(c.Values, v)
 	}
+	if g.Rare(3) { // any values: utilities of magnitude 1e12 (the same multiset in another unit, exact in binary)
+		for i := range c.Values {
+			c.Values[i] *= float64(int64(1) << 40)
+		}
+	}
 	// shuffle listing order
 	q := g.Perm(n)
 	ids, vals := make([]string, n), make([]float64, n)
@@ -320,7 +325,7 @@ func exactRequest(v *ReqView) bool {
 
 func genC04Api(t *rapid.T) C04ApiCase {
 	g := G{t}
-	o := GenOpts{Methods: utilityMethods, MaxBiases: 1, ValueMode: -1, TieHeavy: g.Chance(3, 4), MinAlts: 2}
+	o := GenOpts{Methods: utilityMethods, MaxBiases: 1, ValueMode: -1, TieHeavy: g.Chance(3, 4), MinAlts: 2, ValueScales: true}
 	if g.Chance(1, 6) {
 		o.MinAlts, o.MaxAlts = 12, 30 // many alternatives with ties
 	}
